@@ -7,15 +7,31 @@ NT = set("close-with-pending-calls-and-connections".split(","))
 
 
 class Eng(cl.CLEngine):
-    MACROS = ["warmup", "remove2", "remove2", "remove2", "remove", "timeout", "partial"]
-    MACRO_ONE_IN = 8
+    MACROS = ["warmup", "remove2", "remove2", "remove", "timeout", "partial", "closebusy", "closebusy", "closebackoff", "closebackoff", "closeconnecting"]
+    MACRO_ONE_IN = 4
+
+    @classmethod
+    def config_strategy(cls):
+        # with version discovery on, most busy moments have a broker-agnostic ApiVersions request in flight and close() then runs into the
+        # recorded bootstrap-path finding; half of the configs switch discovery off so that the search also covers plain busy states
+        from hypothesis import strategies as st
+
+        def plain(t):
+            cfg, yes = t
+            if not yes:
+                return cfg
+            # ... and every partition has a leader, so that calls are broker-aware instead of waiting for a metadata reload
+            topics = [dict(x, leaders=[(n if n > 0 else 1 + (i % cfg["brokers"])) for i, n in enumerate(x["leaders"])]) for x in cfg["topics"]]
+            return dict(cfg, discovery="off", topics=topics)
+
+        return st.tuples(cl.config_strategy(), st.booleans()).map(plain)
 
     def nontrivial(self):
         return bool(self.nt & NT) or bool(NT & self.labels)
 
 
 def shard(ctx):
-    drive(ctx, Eng, ctx.n(16 * 120, 16 * 4000), min_steps=8, max_steps=70, props={"C20"})
+    drive(ctx, Eng, ctx.n(16 * 250, 16 * 6000), min_steps=8, max_steps=70, props={"C20"})
 
 
 def replay(case, ctx):
